@@ -10,6 +10,8 @@
   interpreting both with rules/absint.py over every variant and over every string either of them ever compares
   with (plus one string equal to none of them).
 """
+import re
+
 from . import absint as A
 
 # ----------------------------------------------------------------------------- path-sensitive small values
@@ -21,6 +23,8 @@ def _pkey(pl):
     for e in pl["p"]:
         if isinstance(e, dict) and "f" in e and "dc" not in e:
             path.append(e["f"])
+        elif isinstance(e, dict) and "dc" in e and isinstance(e.get("v"), int):
+            path.append(-1 - e["v"])        # `as Variant`: the payload of that variant (variant index v), kept sortable next to field indices
         else:
             return None
     return (pl["l"], tuple(path))
@@ -128,6 +132,12 @@ def path_states(f, starts, sites, watch=(), stops=(), max_states=60000):
                 a = facts_db.adts.get(rv["adt"])
                 if a and a.get("kind") != "struct":
                     new = {(): ("v", rv["adt"], rv["variant"])}
+                    # known small values carried as the payload (`Some(Format::Json)`) are read back through `(x as Some).0`
+                    vi = variant_index(rv["adt"], rv["variant"])
+                    if vi is not None:
+                        for i, o in enumerate(rv["ops"]):
+                            for suf, v in value_of(env, o).items():
+                                new[(-1 - vi, i) + suf] = v
             elif kind == "discr":
                 q = _pkey(rv["pl"])
                 v = env.get(q) if q is not None else None
@@ -218,6 +228,33 @@ def variant_table(f, switch_bbs, target_adt_rx, extra_stops=()):
             for n in names:
                 table.setdefault(n, set()).update(built)
     return table
+
+
+# ----------------------------------------------------------------------------- function values
+def fn_items_reaching(f, op):
+    """Function items (constant operands with `fn` / `fn_args`) that the operand's value can be, or — when the operand is a collection /
+    iterator — that can be among its elements: the const fn operands of the assignments to the locals of its backward slice (a fn item
+    coerced to a fn pointer, stored in an array literal, borrowed, unsized, iterated).  (Generic; candidate for lib.py.)"""
+    sl = f.slice(op)
+    out = []
+    if op.get("k") == "const" and op.get("fn"):
+        out.append(op)
+    locs = sl.locals()
+
+    def walk(o):
+        if isinstance(o, dict):
+            if o.get("k") == "const" and o.get("fn"):
+                out.append(o)
+            for v in o.values():
+                walk(v)
+        elif isinstance(o, list):
+            for v in o:
+                walk(v)
+    reach = f.reachable(0)
+    for b, i, st in f.stmts():
+        if b in reach and st["pl"]["l"] in locs and st["rv"]["rv"] in ("use", "cast", "agg", "repeat"):
+            walk(st["rv"])
+    return out
 
 
 # ----------------------------------------------------------------------------- enum <-> string tables by interpretation
@@ -328,6 +365,27 @@ STRING_OPAQUE = [r"^std::string::ToString::to_string$", r"^std::borrow::ToOwned:
                  r"^std::string::String::"]
 
 
+_ARRAY_TY = re.compile(r"^&?(?:'\S+ )?\[(.*?)(?:; [^;\]]+)?\]$")
+
+
+def _split_top(s):
+    """Split a rendered tuple type at its top-level commas."""
+    out, depth, cur = [], 0, ""
+    for ch in s:
+        if ch in "(<[":
+            depth += 1
+        elif ch in ")>]":
+            depth -= 1
+        if ch == "," and depth == 0:
+            out.append(cur.strip())
+            cur = ""
+        else:
+            cur += ch
+    if cur.strip():
+        out.append(cur.strip())
+    return out
+
+
 class StrInterp(A.Interp):
     """absint interpreter in which string constants (named constants, literals, constant patterns of a `match` on a
     &str) and the string input are symbols that can only be compared for equality, and an array literal can be iterated."""
@@ -348,7 +406,28 @@ class StrInterp(A.Interp):
                 s = op["tyconst"][1:-1]
             if s is not None:
                 return self.string(s)
+            if op.get("val") and "list" in op["val"]:
+                return self.const_value(op["val"], op.get("ty") or "")
         return A.Interp.operand(self, frame, op)
+
+    def const_value(self, val, ty):
+        """An evaluated constant as rendered by the driver ({"list": [..]} / {"tuple": [..]} / {"str"} / {"int"} / {"variant", "adt"}) as a
+        value: a constant table is an array literal like any other."""
+        ty = ty.strip()
+        if "list" in val:
+            m = _ARRAY_TY.match(ty)
+            ety = m.group(1) if m else ""
+            return ("tuple", [self.const_value(x, ety) for x in val["list"]], "array")
+        if "tuple" in val:
+            etys = _split_top(ty[1:-1]) if ty.startswith("(") and ty.endswith(")") else []
+            return A.V_tuple([self.const_value(x, etys[i] if i < len(etys) else "") for i, x in enumerate(val["tuple"])])
+        if "str" in val:
+            return self.string(val["str"])
+        if "variant" in val and val.get("adt") and not val.get("fields"):
+            return A.V_enum(val["adt"], self.vidx(val["adt"], val["variant"]), val["variant"], [])
+        if "int" in val:
+            return A.V_bool(val["int"]) if ty == "bool" else A.V_int(val["int"])
+        raise A.LeavesFragment("constant table entry %r is not modelled" % (sorted(val),))
 
     def rvalue(self, fn, frame, rv):
         if rv["rv"] == "agg" and rv.get("agg") == "array":
@@ -418,3 +497,154 @@ def _only_equalities(it):
     bad = sorted(set(op for op, x, y in it.cmp_log if op.lower() not in ("eq", "ne")))
     if bad:
         raise A.LeavesFragment("strings are ordered (%s), not just compared for equality" % ",".join(bad))
+
+
+# ----------------------------------------------------------------------------- a hand-written JSON schema, by interpretation
+_COLL_TY = re.compile(r"^(std::collections::(BTreeSet|BTreeMap|HashSet|HashMap)|indexmap::(set::)?IndexSet|indexmap::(map::)?IndexMap|schemars::(Map|Set)|std::vec::Vec)<")
+_INSERT = re.compile(r"^(std::collections::(BTreeSet|BTreeMap|HashSet|HashMap)|indexmap::(set::)?IndexSet|indexmap::(map::)?IndexMap)::<.*>::insert$|^std::vec::Vec::<T, A>::push$")
+_NEW_COLL = re.compile(r"^(std::collections::(BTreeSet|BTreeMap|HashSet|HashMap)|indexmap::(set::)?IndexSet|indexmap::(map::)?IndexMap|std::vec::Vec)::<.*>::new$")
+_SAME_VALUE = re.compile(r"^std::convert::(Into::into|From::from)$|^std::string::ToString::to_string$|^std::borrow::ToOwned::to_owned$|^std::boxed::Box::<T>::new$|"
+                         r"^std::clone::Clone::clone$|^<?std::string::String.*::from$")
+_OPAQUE_SCHEMA = re.compile(r"^schemars::JsonSchema::(json_schema|schema_name)$|^schemars::r#?gen::SchemaGenerator::|^schemars::gen::SchemaGenerator::")
+
+
+def _coll(items=()):
+    return ("struct", "#coll", [A.V_tuple(list(items))])
+
+
+def _copy_value(v, depth=0):
+    if v is None or depth > 12:
+        return v
+    if v[0] == "struct":
+        return ("struct", v[1], [_copy_value(x, depth + 1) for x in v[2]])
+    if v[0] == "tuple":
+        return ("tuple", [_copy_value(x, depth + 1) for x in v[1]]) + tuple(v[2:])
+    if v[0] == "enum":
+        return ("enum", v[1], v[2], v[3], [_copy_value(x, depth + 1) for x in v[4]])
+    return v
+
+
+class SchemaInterp(StrInterp):
+    """StrInterp plus a model of *building a value*: `Default::default()` of a struct is that struct with empty collections in its
+    collection-typed fields and opaque values elsewhere, `insert` / `push` / `extend` / `collect` move elements into collections,
+    `into` / `to_string` / `Box::new` / `clone` hand their argument on.  What is asked afterwards is which string keys the collections of the
+    returned value hold — the same answer for a struct literal over `[..].into_iter().collect()` and for a loop over a constant table that
+    inserts into a default value."""
+
+    def default_of(self, ty):
+        ty = (ty or "").strip()
+        if _COLL_TY.match(ty):
+            return _coll()
+        a = self.facts.adts.get(re.sub(r"<.*>$", "", ty))
+        if a and a.get("kind") == "struct":
+            return A.V_struct(a["id"], [_coll() if _COLL_TY.match(f["ty"]) else A.V_opaque("default:" + f["name"]) for f in a["variants"][0]["fields"]])
+        return A.V_opaque("default")
+
+    def coll_items(self, ref):
+        v = self.deref_all(ref)
+        if v is None or v[0] != "struct" or v[1] != "#coll":
+            raise A.LeavesFragment("not a modelled collection")
+        return v[2][0][1]
+
+    def do_call(self, fn, frame, t, bb):
+        callee = t.get("callee") or ""
+        res = t.get("resolved") or ""
+        if callee == "std::default::Default::default":
+            m = re.match(r"^<(.+) as std::default::Default>::default$", res)
+            return self.default_of(m.group(1) if m else "")
+        if _NEW_COLL.match(callee):
+            return _coll()
+        if _OPAQUE_SCHEMA.match(callee):
+            return A.V_opaque(callee)
+        argv = None
+        if _INSERT.match(callee) or _SAME_VALUE.match(callee) or callee in ("std::iter::Iterator::collect", "std::iter::FromIterator::from_iter", "std::iter::Extend::extend"):
+            argv = [self.operand(frame, a) for a in t["args"]]
+        if _INSERT.match(callee):
+            self.coll_items(argv[0]).append(argv[1] if len(argv) == 2 else A.V_tuple(argv[1:]))
+            return A.V_opaque("inserted")
+        if _SAME_VALUE.match(callee) and len(argv) == 1:
+            v = self.deref_all(argv[0])
+            if v is not None and v[0] == "sym":
+                return argv[0] if argv[0][0] == "ref" else A.V_ref(A.Cell(v))     # a string stays the string it is
+            return _copy_value(v) if callee.endswith("Clone::clone") else argv[0]
+        if callee in ("std::iter::Iterator::collect", "std::iter::FromIterator::from_iter", "std::iter::Extend::extend"):
+            src = argv[-1]
+            d = self.deref_all(src)
+            if d is not None and d[0] == "tuple" and len(d) > 2 and d[2] == "array":
+                src = _s_into_iter(self, [src], t)
+            it = A.V_ref(A.Cell(src)) if src[0] != "ref" else src
+            items = []
+            while True:
+                x = _iter_next(self, it)
+                if x is None:
+                    break
+                items.append(x)
+            if callee.endswith("Extend::extend"):
+                self.coll_items(argv[0]).extend(items)
+                return A.V_opaque("extended")
+            return _coll(items)
+        return StrInterp.do_call(self, fn, frame, t, bb)
+
+
+def decide_object_schema(facts, fn, validation_adt="schemars::schema::ObjectValidation", object_adt="schemars::schema::SchemaObject"):
+    """Interpret a hand-written `json_schema(gen)` and read the object validation off the value it returns.
+    Returns {"required": set of strings, "properties": set of strings, "instance_types": set of variant names of the SchemaObject that holds the
+    validation}.  Raises absint.LeavesFragment when the function does something the model does not cover, when paths disagree, or when
+    the returned value does not hold exactly one object validation."""
+    a = facts.adts.get(validation_adt)
+    if not a:
+        raise A.LeavesFragment("ADT %s unknown" % validation_adt)
+    names = [f["name"] for f in a["variants"][0]["fields"]]
+    so = facts.adts.get(object_adt)
+    so_names = [f["name"] for f in so["variants"][0]["fields"]] if so else []
+
+    def run(ch):
+        it = SchemaInterp(facts, ch)
+        r = it.call_fn(fn, [A.V_opaque("generator")] * fn.argc)
+        found = []
+
+        def enums_in(v, out, depth=0):
+            v = it.deref_all(v)
+            if v is None or depth > 10:
+                return
+            if v[0] == "enum":
+                out.add(v[3])
+            for x in (v[4] if v[0] == "enum" else v[2] if v[0] == "struct" else v[1] if v[0] == "tuple" else []):
+                enums_in(x, out, depth + 1)
+
+        def walk(v, holder, depth=0):
+            v = it.deref_all(v)
+            if v is None or depth > 12:
+                return
+            if v[0] == "struct" and v[1] == validation_adt:
+                found.append((v, holder))
+                return
+            if v[0] == "struct" and v[1] == object_adt:
+                holder = v
+            for x in (v[4] if v[0] == "enum" else v[2] if v[0] == "struct" else v[1] if v[0] == "tuple" else []):
+                walk(x, holder, depth + 1)
+        walk(r, None)
+        if len(found) != 1:
+            raise A.LeavesFragment("the returned value holds %d object validations" % len(found))
+        v, holder = found[0]
+
+        def keys(field):
+            out = set()
+            for x in it.coll_items(v[2][names.index(field)]):
+                x = it.deref_all(x)
+                if x is not None and x[0] == "tuple" and x[1]:
+                    x = x[1][0]
+                s = it.string_of(x)
+                if s is None:
+                    raise A.LeavesFragment("a key of `%s` is not a constant string" % field)
+                out.add(s)
+            return frozenset(out)
+        itypes = set()
+        if holder is not None and "instance_type" in so_names:
+            enums_in(holder[2][so_names.index("instance_type")], itypes)
+        return it, (keys("required"), keys("properties"), frozenset(itypes - {"Some", "None"}))
+    outs = set(A.explore(run))
+    if len(outs) != 1:
+        raise A.LeavesFragment("the schema differs between paths")
+    req, props, itypes = outs.pop()
+    return {"required": set(req), "properties": set(props), "instance_types": set(itypes)}
